@@ -82,6 +82,42 @@ def _broadcast_family(ctx, work, tier):
                                      "forms": sorted(consts["Forms"]), "laws_model_checked": BC_INV[1:]}
 
 
+PARA = {"quick": dict(CompSet={"title", "subline", "pagehdr", "pageftr", "footnote", "source"}, LSet={1, 2, 3}, KSet={1, 2, 3}, FormSet={"scalar", "list", "tuple"},
+                      SaltSet={0, 1, 2}),
+        "thorough": dict(CompSet={"title", "subline", "pagehdr", "pageftr", "footnote", "source"}, LSet={1, 2, 3}, KSet={1, 2, 3, 4}, FormSet={"scalar", "list", "tuple"},
+                         SaltSet={0, 1, 2, 3, 4, 5, 6, 7})}
+PARA_INV = ["TypeOK", "RunFollowsLine", "ConstantPattern", "OnePar"]
+
+
+def _para_family(ctx, work, tier):
+    """spec/ParaFormat.tla: per-line attribute patterns of the paragraph-rendered text components (title, subline, page
+    header / footer, paragraph footnote / source).  The laws are model-checked; every behaviour is replayed on the real
+    components and the value read back for each run / paragraph is compared with the specification's (spec -> code).
+    Not the subject of a listed property: a difference is model drift.  Control: the specification with the recorded
+    deviation switched off (paragraph settings from the first line) must disagree with the code somewhere."""
+    import paraformat
+    consts = dict(PARA[tier]); consts.update(AttrSet=set(paraformat.VALUES), NV=paraformat.NV, ParLevelFromLastLine=True)
+    res = family.model_check(ctx, work, "ParaFormat", consts, PARA_INV, [], "paragraph formatting")
+    if res.violated:
+        raise MachineryError("ParaFormat model violates %s\n%s" % (res.violated, res.counterexample[:1200]))
+    res2 = family.model_check(ctx, work, "ParaFormat", consts, ["ParFromFirst"], [], "paragraph formatting, intended reading")
+    got = family.generate(ctx, work, "ParaFormat", consts, "para")
+    items = [{"id": i, "cfg": g["cfg"], "out": g["out"]} for i, g in enumerate(got)]
+    recs = pmap(paraformat.run_one, items, chunk=128)
+    bad = [r for r in recs if r["diff"]]
+    for r in bad[:20]:
+        ctx.model_drift("text component %s: %s" % (json.dumps(r["cfg"], sort_keys=True), r["diff"]))
+    c2 = dict(consts); c2.update(ParLevelFromLastLine=False, SaltSet={0}, AttrSet={"text_justification", "text_space_before"})
+    ctl = family.generate(ctx, work, "ParaFormat", c2, "para-control")
+    crec = pmap(paraformat.run_one, [{"id": i, "cfg": g["cfg"], "out": g["out"]} for i, g in enumerate(ctl)], chunk=128)
+    nctl = len([r for r in crec if r["diff"]])
+    if nctl == 0:
+        raise MachineryError("binding self-test: the ParaFormat specification with the deviation switched off was not told apart from the code")
+    ctx.extra["paragraph_family"] = {"behaviours_replayed": len(recs), "drift": len(bad), "laws_model_checked": PARA_INV[1:],
+                                     "intended_reading_refuted_on_model": res2.violated,
+                                     "control_spec_rejected_on": nctl, "control_behaviours": len(crec)}
+
+
 def run(pid, tier, seed, replay=None):
     ctx = Ctx(pid, tier, seed)
     work = family.Work()
@@ -131,6 +167,7 @@ def run(pid, tier, seed, replay=None):
                 ctx.model_drift("C09 scenario %s: %s" % (json.dumps(c, sort_keys=True), r["drift"]))
         ctx.extra["conformance"] = {"compared_with_model_prediction": len(recs), "drift": nd}
         _broadcast_family(ctx, work, tier)
+        _para_family(ctx, work, tier)
         ctx.extra["attributes_covered"] = sorted({r["c"]["attr"] for r in recs})
         if len(ctx.extra["attributes_covered"]) < len(ALL_ATTRS):
             raise MachineryError("vacuity guard: not every attribute was exercised")
